@@ -23,7 +23,8 @@ EXPLANATION = ("Timestamp formatter tables. R1 (fractional seconds, exhaustive o
                "elapsed seconds are taken against the cached timestamp before it is overwritten; the populate step converts the same "
                "timestamp with the conversion that matches the zone and caches hour*3600 + min*60 + sec."
                ' R4g: the next rebuild point is only ever assigned a freshly computed value. R6b: every recorded position is patched, unconditionally within its case. R7: gmtime_rs / localtime_rs / timegm delegate to the libc conversion of the same kind (no libc call at all: analysis broken). R8 (= C12.R7): options equality over every member.'
-               " R3d/R3e: conversions that print the time of day outside the patched set (%c, %-H, %OS, %EX ...) are detected at init by a constexpr scanner — checked by a compile-time witness against an independent reference of strftime's conversion grammar — and such a pattern is rendered by strftime for every timestamp (or rejected); no cached text can be returned for it (found the tree's fifteenth defect).")
+               " R3d/R3e: conversions that print the time of day outside the patched set (%c, %-H, %OS, %EX ...) are detected at init by a constexpr scanner — checked by a compile-time witness against an independent reference of strftime's conversion grammar — and such a pattern is rendered by strftime for every timestamp (or rejected); no cached text can be returned for it (found the tree's fifteenth defect)."
+               " R5b: the constructor (or the member function it calls) splits the pattern around the fractional specifier: part 1 is initialised on every non-throwing path, with the whole pattern on 'no specifier' and with substr(0, begin) otherwise; part 2 starts at begin + length and is initialised, and flagged as present, exactly when it is not empty.")
 TECHNIQUE = 'static analysis: custom checker over clang AST/CFG facts (table, width and cache-coherence rules) plus a compile-time witness (static_assert table of patterns evaluated by the compiler) for the constexpr conversion scanner'
 NOT_DECIDED = ("Equality with strftime for every instant, zone and sequence as values (DST shifts, historical zone offsets that are not "
                "multiples of 15 minutes, the arithmetic of the hour/minute/second patching over all elapsed times): left to dynamic "
@@ -557,6 +558,67 @@ def r3(ctx, facts):
                 lab = "T" if nc[0] == "!=" else "F"
                 if any(p in throws for p in straight_after(cg, bid, lab)) and not cg.exists_path([cg.entry_node], pp, avoid_edges=[(bid, other(lab))]):
                     ok = True
+    # R5b: how the pattern is split around the fractional specifier (in the constructor or the member function it calls, `host`): part 1 is
+    # initialised on every path that does not throw — with the whole pattern when no specifier was found, else with substr(0, begin);
+    # part 2 is the text behind the specifier (substr(begin + length, ...)), initialised exactly when it is not empty, and the flag that
+    # makes format_timestamp append it is set to true exactly there
+    hg = host.g
+    hthrows = hg.pos_of(lambda n: isnode(n) and n.get("k") == "CXXThrowExpr")
+    p1 = [c for c in host.calls(r"StringFromTime::init$") if is_this_field(call_obj(c), "_strftime_part_1")]
+    p1p = npos(host, p1)
+    every = bool(p1p) and not hg.exists_path([hg.entry_node], [hg.exit_node], avoid_nodes=p1p + hthrows)
+    hin = host.var_inits()
+    def _sub_args(e):
+        for x in walk(e if isnode(e) else {}):
+            if is_call(x, r"basic_string<.*>::substr$") and is_this_field(call_obj(x), "_time_format"):
+                return [a for a in x["args"] if not (isnode(a) and a["k"] == "CXXDefaultArgExpr")]
+        return None
+    whole = [c for c in p1 if is_this_field(strip(c["args"][0], casts=True), "_time_format")]
+    cut = [c for c in p1 if var_ref(c["args"][0]) is not None and _sub_args(hin.get(var_ref(c["args"][0]))) is not None]
+    cut_ok = bool(cut) and all(const_val(_sub_args(hin[var_ref(c["args"][0])])[0]) == 0 and len(_sub_args(hin[var_ref(c["args"][0])])) == 2 for c in cut)
+    # the begin index: what part 1 is cut at is what part 2 starts behind
+    begin_keys = set(expr_key(_sub_args(hin[var_ref(c["args"][0])])[1]) for c in cut) if cut_ok else set()
+    p2_ok = False
+    flag_ok = False
+    if p2 and var_ref(p2[0]["args"][0]) is not None:
+        a2 = _sub_args(hin.get(var_ref(p2[0]["args"][0])))
+        if a2:
+            st = strip(a2[0], casts=True)
+            stv = var_ref(st)
+            st_e = strip(hin.get(stv), casts=True) if stv is not None and isnode(hin.get(stv)) else st
+            p2_ok = isnode(st_e) and st_e["k"] == "BinaryOperator" and st_e["op"] == "+" and \
+                (expr_key(st_e["lhs"]) in begin_keys or expr_key(st_e["rhs"]) in begin_keys)
+        flags = [n for n in host.walk() if n["k"] == "BinaryOperator" and n["op"] == "=" and is_this_field(n["lhs"], "_has_format_part_2")]
+        fpos = npos(host, flags)
+        pp2 = hg.positions(p2[0])
+        empt = []
+        for bid in hg.blocks:
+            c = hg.term_cond(bid)
+            if c is None:
+                continue
+            core, neg = core_and_neg(c)
+            cs_ = strip(core, casts=True)
+            if is_call(cs_, r"basic_string<.*>::empty$") and var_ref(call_obj(cs_)) == var_ref(p2[0]["args"][0]):
+                empt.append((bid, "T" if neg else "F"))       # label of 'not empty'
+        flag_ok = bool(flags) and all(const_val(n["rhs"]) == 1 for n in flags) and bool(empt) and \
+            not hg.exists_path([hg.entry_node], pp2 + fpos, avoid_edges=empt) and \
+            all(not hg.exists_path([y for (y, l2) in hg.succ.get(tnode(hg, b), ()) if l2 == l], [hg.exit_node], avoid_nodes=fpos + hthrows) and
+                not hg.exists_path([y for (y, l2) in hg.succ.get(tnode(hg, b), ()) if l2 == l], [hg.exit_node], avoid_nodes=pp2 + hthrows) for (b, l) in empt)
+    # ... the whole pattern on the 'no specifier found' outcome (begin == npos), the cut on the other
+    arm_ok = False
+    for bid in hg.blocks:
+        c = hg.term_cond(bid)
+        nc = norm_cmp(c) if c is not None else None
+        if nc and nc[0] in ("==", "!=") and (nc[1] in begin_keys or nc[2] in begin_keys) and \
+                any(x["k"] == "DeclRefExpr" and x.get("name", "").endswith("npos") for x in walk(c)):
+            none_lab = "T" if nc[0] == "==" else "F"
+            arm_ok = arm_ok or (bool(whole) and bool(cut) and
+                                not hg.exists_path([hg.entry_node], npos(host, whole), avoid_edges=[(bid, none_lab)]) and
+                                not hg.exists_path([hg.entry_node], npos(host, cut), avoid_edges=[(bid, other(none_lab))]))
+    ctx.ob("C13.R5b", "TimestampFormatter::ctor:pattern-split-around-the-specifier", every and bool(whole) and cut_ok and p2_ok and flag_ok and arm_ok,
+           "part 1 is initialised on every path that does not throw (%s), with the whole pattern or with substr(0, begin) (%s, %s); part 2 starts "
+           "behind the specifier at begin + length (%s) and is initialised, and flagged as present, exactly when it is not empty (%s)"
+           % (every, bool(whole), cut_ok, p2_ok, flag_ok), fn=host)
     if p2:
         ctor, cg, throws = ctor_, cg_, throws_
     ctx.ob("C13.R3c", "TimestampFormatter::ctor:repeated-specifier-rejected", ok,
